@@ -9,7 +9,7 @@
    reproduces byte for byte. *)
 From Coq Require Import String NArith List Bool.
 From RC Require Import lib.Result model.Layout model.TrigTable model.RichCodec model.Str model.StrEditor model.Alloc
-  proofs.C04_proofs proofs.C04_readback proofs.C04_locations proofs.C04_cuwps proofs.C04_reload proofs.C04_switches proofs.C04_wavs model.ChkIo gen.GenConsts proofs.C07_triggers proofs.C07_slots model.RichIo proofs.C08_proofs proofs.C09_proofs proofs.Save_strings proofs.Save_refs gen.GenTrig spec.SpecTrig gen.GenFlags gen.GenConsts.
+  proofs.C04_proofs proofs.C04_readback proofs.C04_locations proofs.C04_cuwps proofs.C04_reload proofs.C04_reload_locs proofs.C04_switches proofs.C04_wavs model.ChkIo gen.GenConsts proofs.C07_triggers proofs.C07_slots model.RichIo proofs.C08_proofs proofs.C09_proofs proofs.Save_strings proofs.Save_refs gen.GenTrig spec.SpecTrig gen.GenFlags gen.GenConsts.
 Import ListNotations.
 Local Open Scope N_scope.
 
@@ -268,3 +268,21 @@ Theorem C04_the_saved_unit_property_table_is_read_back :
                   c_vs := c_vs c; c_vu := c_vu c; c_unk := c_unk c; c_pad := c_pad c; c_idx := Some (N.of_nat k + 1)%N |}.
 Proof. exact saved_cuwp_table_reads_back. Qed.
 Print Assumptions C04_the_saved_unit_property_table_is_read_back.
+
+(* END TO END for a location argument: the number a save writes for a location l is resolved, by the context a later load of the
+   saved map builds, to a location that Python considers equal to l - rectangle, name, elevation flags - carrying that number *)
+Theorem C04_a_location_number_resolves_to_the_authored_location_after_reload :
+  forall wd r d' cx' ls mr new_str SL l i v slot,
+    save wd r = Ok d' -> decode_context d' = Ok cx' ->
+    filter (named "MRGN") r = [RMrgn ls] -> rebuild_mrgn r = Ok mr ->
+    rebuild_str r = Ok new_str -> build_str_lookup 2 new_str = Ok SL ->
+    (N.of_nat (length (sl_by_id SL)) <= 1000000)%N ->
+    NoDup (map fst (by_idx ls)) -> (forall x, In x (fst mr) -> length (l_elev x) = 6%nat) ->
+    find_loc_id l (snd mr) None = Some i -> (1 <= i)%N ->
+    mrgn_encode SL (fst mr) = Ok v -> nth_error (vlist "_locations" v) (N.to_nat (i - 1)) = Some slot -> loc_is_unused slot = false ->
+    exists k0,
+      rloc_eqb l k0 = true /\
+      loc_by_id cx' i = Some {| l_x1 := l_x1 k0; l_y1 := l_y1 k0; l_x2 := l_x2 k0; l_y2 := l_y2 k0; l_name := l_name k0;
+                               l_idx := Some i; l_elev := l_elev k0; l_oid := 0%N |}.
+Proof. exact location_number_resolves_after_reload. Qed.
+Print Assumptions C04_a_location_number_resolves_to_the_authored_location_after_reload.
